@@ -149,6 +149,12 @@ FIXED = {
          [(0, 'rp', 2, 2), (1, 'rp', 2, 2)]),
         ('inventory-shrink-vs-claim', [('inv_put', 39, 2, 2, inv(0, 2)), ('alloc_put', 39, cons(5, None, [(2, [(0, 6)])]))],
          [(0, 'rp', 2, 2)]),
+        # a reshape naming the same provider under inventories AND in a consumer's allocations (it shrinks DISK_GB on provider 1),
+        # overtaken by a claim that only fits the old inventory: whichever comes first, the other one must be refused (seed C07-g:
+        # the provider object loaded later for the allocations replaced the one whose generation had been checked)
+        ('reshape-both-sections-vs-claim', [('reshape', 39, [(1, 3, [inv(0, 8), inv(2, 40)])], [cons(4, None, [(1, [(0, 1)])])]),
+                                            ('alloc_put', 39, cons(5, None, [(1, [(2, 50)])]))],
+         [(0, 'rp', 1, 3)]),
         ('three-guarded', [('inv_set', 39, 1, 3, [inv(0, 4)]), ('aggs_set', 39, 1, 3, [2]), ('inv_put', 39, 1, 3, inv(0, 16))],
          [(0, 'rp', 1, 3), (1, 'rp', 1, 3), (2, 'rp', 1, 3)]),
         # fault-assisted: request 0 loses the duplicate-key race for a NEW aggregate once (its transaction is rolled back and
@@ -198,6 +204,12 @@ FIXED = {
          [(0, 'rp', 2, 2)]),
         ('inventory-set-shrink-vs-post', [('inv_set', 39, 1, 3, [inv(0, 2), inv(2, 100)]),
                                           ('alloc_post', 39, [cons(5, None, [(1, [(0, 6)])]), cons(4, None, [(1, [(2, 10)])])])],
+         [(0, 'rp', 1, 3)]),
+        # a reshape naming the same provider under inventories AND in a consumer's allocations (it shrinks DISK_GB on provider 1),
+        # overtaken by a claim that only fits the old inventory: whichever comes first, the other one must be refused (seed C07-g:
+        # the provider object loaded later for the allocations replaced the one whose generation had been checked)
+        ('reshape-both-sections-vs-claim', [('reshape', 39, [(1, 3, [inv(0, 8), inv(2, 40)])], [cons(4, None, [(1, [(0, 1)])])]),
+                                            ('alloc_put', 39, cons(5, None, [(1, [(2, 50)])]))],
          [(0, 'rp', 1, 3)]),
         ('capacity-race', [('alloc_put', 39, cons(4, None, [(1, [(0, 5)])])), ('alloc_put', 39, cons(5, None, [(1, [(0, 5)]), (2, [(0, 1)])]))], []),
         ('null-put-vs-gen0-put', [('alloc_put', 39, cons(5, None, [(1, [(0, 2)])])), ('alloc_put', 39, cons(5, 0, [(2, [(0, 3)])]))],
